@@ -36,6 +36,8 @@ pub struct Swarm {
     pub alloc_modes: bool,
     pub stalls: bool,
     pub stall_max_ns: u64,
+    /// files in which half of the stall-enabled runs concentrate their stalls
+    pub stall_focus: &'static [&'static str],
     pub cas_weak: bool,
     pub spurious_park: bool,
     pub est_len: u64,
@@ -49,6 +51,7 @@ impl Default for Swarm {
             alloc_modes: false,
             stalls: false,
             stall_max_ns: 2_000_000,
+            stall_focus: &[],
             cas_weak: true,
             spurious_park: false,
             est_len: 2000,
@@ -81,6 +84,9 @@ pub fn swarm_cfg(seed: u64, sw: &Swarm) -> Cfg {
         c.stall_budget = r.range(1, 3) as u32;
         c.stall_ppm = (c.stall_budget as u64 * 1_000_000 / sw.est_len.max(1)).min(200_000) as u32;
         c.stall_max_ns = sw.stall_max_ns;
+        if !sw.stall_focus.is_empty() && r.chance(1, 2) {
+            c.stall_focus = sw.stall_focus;
+        }
         // a stalled thread resumes although others spin on it
         c.tick_ns = 25;
     }
